@@ -803,13 +803,26 @@ Proof.
   - injection H as <-. split; [now apply Keeps_refl | exact HR].
 Qed.
 
-Lemma extract_keeps wd pres cwd dp dirName : forall es f f' ok,
+Lemma narrow_base_keeps wd dp m f f' :
   Inv wd f -> inside wd dp = true -> RealD f [] dp ->
-  extract cfg_fixed pres cwd dp dirName f es = (f', ok) ->
+  narrow_base f dp m = Some f' -> Keeps wd f f'.
+Proof.
+  intros I Hd HR H. unfold narrow_base in H.
+  destruct (lookup f dp) as [[|i|d a cs]|]; try discriminate; try (injection H as <-; now apply Keeps_refl).
+  destruct (N.land (dir_mode f dp) m =? dir_mode f dp)%N; [injection H as <-; now apply Keeps_refl|].
+  apply (chmod_at_real wd dp _ f f' I Hd HR H).
+Qed.
+
+Lemma extract_keeps wd pres cwd dp dirName : forall es f f' ok base,
+  Inv wd f -> inside wd dp = true -> RealD f [] dp ->
+  extract cfg_fixed pres cwd dp dirName f es base = (f', ok) ->
   Keeps wd f f'.
 Proof.
-  induction es as [|e es IH]; intros f f' ok I Hd HR H.
-  - injection H as <- _. now apply Keeps_refl.
+  induction es as [|e es IH]; intros f f' ok base I Hd HR H.
+  - cbn [extract] in H. destruct base as [m|]; [|injection H as <- _; now apply Keeps_refl].
+    destruct pres; [injection H as <- _; now apply Keeps_refl|].
+    destruct (narrow_base f dp m) as [f1|] eqn:N; injection H as <- _; [|now apply Keeps_refl].
+    eapply narrow_base_keeps; eauto.
   - cbn [extract] in H.
     destruct (extract_entry cfg_fixed pres cwd dp dirName f e) as [f1|] eqn:E.
     + destruct (extract_entry_keeps _ _ _ _ _ _ _ _ I Hd HR E) as [K1 HR1].
@@ -901,7 +914,7 @@ Proof.
     2:{ injection H as <- _. now apply Keeps_refl. }
     destruct (mkdir_real_lex wd 511 rel wd _ f1 I (inside_refl wd) HRwd M) as (K1 & R1 & _).
     rewrite <- SP in R1.
-    destruct (extract cfg_fixed pres cwd cl t f1 es) as [f2 ok2] eqn:EX.
+    destruct (extract cfg_fixed pres cwd cl t f1 es None) as [f2 ok2] eqn:EX.
     injection H as <- _. simpl.
     eapply Keeps_trans; [exact K1|].
     eapply extract_keeps; eauto. exact (proj1 K1).
@@ -972,11 +985,11 @@ Proof.
   apply entry_rel_inside in E. rewrite E, inside_app in He; [discriminate | exact Ht].
 Qed.
 
-Lemma extract_stops g pres cwd dp dirName e es2 : forall es1 f,
+Lemma extract_stops g pres cwd dp dirName e es2 : forall es1 f base,
   (forall f0, extract_entry g pres cwd dp dirName f0 e = None) ->
-  snd (extract g pres cwd dp dirName f (es1 ++ e :: es2)) = false.
+  snd (extract g pres cwd dp dirName f (es1 ++ e :: es2) base) = false.
 Proof.
-  induction es1 as [|e1 es1 IH]; intros f H; cbn [app extract].
+  induction es1 as [|e1 es1 IH]; intros f base H; cbn [app extract].
   - now rewrite H.
   - destruct (extract_entry g pres cwd dp dirName f e1); [now apply IH | reflexivity].
 Qed.
@@ -1110,9 +1123,9 @@ Proof.
   destruct (write_path g wd title) as [raw|] eqn:EW; [|reflexivity].
   apply write_path_lex in EW as [Hin ->].
   match goal with |- snd (match ?m with Some _ => _ | None => _ end) = _ => destruct m as [f1|] end; [|reflexivity].
-  pose proof (extract_stops g pres cwd (lex_loc wd title) title e es2 es1 f1
+  pose proof (extract_stops g pres cwd (lex_loc wd title) title e es2 es1 f1 None
                 (fun f0 => entry_outside_rejected g pres wd cwd title f0 e Hin He)) as Hs.
-  destruct (extract g pres cwd (lex_loc wd title) title f1 (es1 ++ e :: es2)) as [f2 ok]. simpl in *. exact Hs.
+  destruct (extract g pres cwd (lex_loc wd title) title f1 (es1 ++ e :: es2) None) as [f2 ok]. simpl in *. exact Hs.
 Qed.
 
 (* the working directory itself stays a real directory *)
@@ -1176,3 +1189,15 @@ Lemma refuted_remode :
   view_at (st_fs (fst (pushes (mkCfg true true true false true) true wd0 cwd0 (mkStore fs0 []) os_remode))) [b "r"]
   <> view_at fs0 [b "r"].
 Proof. split; [vm_compute; reflexivity | vm_compute; discriminate]. Qed.
+
+(* the unpack directory is narrowed to the mode the archive records for it (no PreservePermissions);
+   other modes are not touched *)
+Definition os_narrow : list pushop :=
+  [PDir (b "t") [EDir (b "t") 448%N; EDir (b "t/a") 511%N; EReg (b "t/a/f") 7%N 384%N]].
+
+Lemma narrow_ok :
+  snd (run0 cfg_fixed os_narrow) = [true] /\
+  view_at (fst (run0 cfg_fixed os_narrow)) [b "r"; b "w"; b "t"] = VDir 448%N /\
+  view_at (fst (run0 cfg_fixed os_narrow)) [b "r"; b "w"; b "t"; b "a"] = VDir 493%N /\
+  view_at (fst (run0 cfg_fixed os_narrow)) [b "r"; b "w"] = VDir 493%N.
+Proof. vm_compute. repeat split. Qed.
